@@ -26,6 +26,7 @@ method Stream(n: int, token: string) -> (i: int, token: string)
 method Script(ops: []string, token: string) -> (token: string)
 method Upgrade(token: string) -> (token: string)
 method Block(token: string) -> (token: string)
+method Panic(token: string) -> ()
 error Failed (token: string)
 error NeedMore (token: string)
 "#;
@@ -232,6 +233,9 @@ impl Interface for TIface {
                 call.to_upgraded();
                 call.reply_struct(Reply::parameters(Some(json!({ "token": token }))))
             }
+            // a fault in interface code: the handler panics (C15/C13: the server must survive it
+            // and its bookkeeping must not go wrong)
+            "org.verif.t.Panic" => panic!("handler panic injected by the workload ({})", token),
             "org.verif.t.Block" => {
                 if let Some(g) = &self.gate {
                     let mut st = g.state.lock().unwrap();
